@@ -592,11 +592,69 @@ func runC17(cfg Config, r *Result) {
 		}
 		c17Program(src, true, "unsupported", model, r)
 	}
+	// array repetition with huge counts (fixed regression stream; the evaluator guards both cases, see f173496 / 6185acc)
+	for _, rc := range c17RepeatCases {
+		c17RepeatCase(rc.src, rc.key, rc.what, r)
+	}
 	kinds := []string{"long-straight", "long-if", "late-loop", "many-constants", "many-locals", "deep-nesting", "wide-array"}
 	rounds := cfg.N(1, 4)
 	for k := 0; k < rounds; k++ {
 		for _, kind := range kinds {
 			c17Program(c17Large(kind, cfg.Rng), false, "large:"+kind, model, r)
+		}
+	}
+}
+
+// OpArrayRepeat with counts no array can have: the VM must return ErrBadRepetition (as the evaluator does), not
+// panic in makeslice / exhaust memory, and must not loop count times over an empty array.
+var c17RepeatCases = []struct{ src, key, what string }{
+	{"a := [1 2] * 1000000000000000000\na = a\n", "vm-repeat-huge-count-host-panic", "len*count exceeds every slice capacity"},
+	{"a := [1 2 3] * 4611686018427387904\na = a\n", "vm-repeat-huge-count-host-panic", "len*count overflows int"},
+	{"e := [1][:0]\nb := e * 9007199254740992\nb = b\n", "vm-repeat-empty-huge-count-hangs", "the empty array repeated 2^53 times"},
+	{"a := [1 2] * 3\na = a\n", "", "control: a small count"},
+	{"e := [1][:0]\nb := e * 4\nb = b\n", "", "control: the empty array, small count"},
+}
+
+func c17RepeatCase(src, key, what string, r *Result) {
+	in := map[string]any{"program": src, "stream": "repeat-count"}
+	c := c17Compile(src)
+	r.Count(src, true)
+	if c.ParseErr != "" || c.CompileErr != "" || c.bc == nil {
+		r.Violate(Violation{Kind: "correspondence", Key: "repeat-count-case-rejected", Detail: c.ParseErr + c.CompileErr, Input: in})
+		return
+	}
+	res := runVMSubprocess(src, 4*time.Second)
+	ev := RunEvy(src, RunOpts{YieldBudget: 2_000_000})
+	switch {
+	case res.Timeout:
+		r.Dist("repeat-count:vm-timeout")
+		k := key
+		if k == "" {
+			k = "vm-nontermination"
+		}
+		r.Violate(Violation{Kind: "property", Key: k, Detail: "OpArrayRepeat (" + what + "): the VM did not return within 4 s (killed); the evaluator: " + ev.Class + " " + ev.ErrText,
+			Input: in, Impl: map[string]any{"vm": "timeout", "evaluator": ev.Class}})
+	case res.Panic != "":
+		r.Dist("repeat-count:vm-host-panic")
+		k := key
+		if k == "" {
+			k = "vm-host-panic"
+		}
+		r.Violate(Violation{Kind: "property", Key: k, Detail: "OpArrayRepeat (" + what + "): the VM crashed the host: " + res.Panic + "; the evaluator: " + ev.Class + " " + ev.ErrText,
+			Input: in, Impl: map[string]any{"vm": res.Panic, "evaluator": ev.Class}})
+	case res.Err != "":
+		r.Dist("repeat-count:vm-error")
+		r.Validated++
+		if key == "" || ev.Class == "ok" {
+			r.Violate(Violation{Kind: "property", Key: "vm-repeat-count-error-mismatch",
+				Detail: "OpArrayRepeat (" + what + "): the VM returned " + res.Err + ", the evaluator " + ev.Class, Input: in})
+		}
+	default:
+		r.Dist("repeat-count:vm-ok")
+		r.Validated++
+		if ev.Class != "ok" {
+			r.Violate(Violation{Kind: "property", Key: "vm-repeat-count-error-mismatch",
+				Detail: "OpArrayRepeat (" + what + "): the VM finished, the evaluator " + ev.Class + " " + ev.ErrText, Input: in})
 		}
 	}
 }
@@ -641,6 +699,16 @@ func c17Replay(cfg Config, r *Result) {
 	}
 	defer model.Close()
 	if src, ok := rep.Input["program"].(string); ok {
+		if st, _ := rep.Input["stream"].(string); st == "repeat-count" {
+			for _, rc := range c17RepeatCases {
+				if rc.src == src {
+					c17RepeatCase(rc.src, rc.key, rc.what, r)
+					return
+				}
+			}
+			c17RepeatCase(src, "", "replay", r)
+			return
+		}
 		c17Program(src, false, "replay", model, r)
 	} else if g, ok := rep.Input["generator"].(string); ok {
 		c17Program(c17Large(strings.TrimPrefix(g, "large:"), rand.New(rand.NewSource(cfg.Seed))), false, g, model, r)
